@@ -33,6 +33,9 @@ import (
 type DKGResult[G algebra.PrimeGroupElement[G, S], S algebra.PrimeFieldElement[S]] struct {
 	Net        *Net
 	Shards     map[ID]*mpc.BaseShard[G, S]
+	// Released: the shard of EVERY party that completed the last round, also when another party
+	// failed in that round (Shards is set only when all parties completed). Round-by-round runs only.
+	Released   map[ID]*mpc.BaseShard[G, S]
 	DealerVV   map[ID][]G // dealer -> its broadcast Feldman verification vector
 	PedersenVV map[ID][]G // Gennaro round 1
 }
@@ -106,6 +109,7 @@ func runGennaro[G algebra.PrimeGroupElement[G, S], S algebra.PrimeFieldElement[S
 		}
 		r3bi := routeB[B2, P](n, 2, ids, r2)
 		out, ok := stepAll(n, 3, ps, func(id ID, p P) (*mpc.BaseShard[G, S], error) { return p.Round3(r3bi[id]) })
+		res.Released = out
 		if ok {
 			res.Shards = out
 		}
@@ -156,6 +160,7 @@ func runCanetti[G algebra.PrimeGroupElement[G, S], S algebra.PrimeFieldElement[S
 		}
 		r4bi := routeB[B3, P](n, 3, ids, r3)
 		out, ok := stepAll(n, 4, ps, func(id ID, p P) (*mpc.BaseShard[G, S], error) { return p.Round4(r4bi[id]) })
+		res.Released = out
 		if ok {
 			res.Shards = out
 		}
